@@ -387,7 +387,10 @@ def _rename_subcircuit_gates(
     i = 0
     for node in subcircuit.top_sort(inverse=True):
         if node.label not in inputs_mapping and node.label not in outputs_mapping:
-            subcircuit.rename_gate(node.label, labels_to_remove[i])
+            if i < len(labels_to_remove):
+                subcircuit.rename_gate(node.label, labels_to_remove[i])
+            # else: keeps its unique temporary label, there is no old label to reuse
+            # (the cone contains gates that do not feed its outputs)
             i += 1
 
     return subcircuit
